@@ -562,7 +562,7 @@ Cfg draw(uint64_t seed, uint64_t index) {
     // thorough tier and rarely; the quick tier uses 512 (16 MB per worker).
     // Measured here: with 512 the workers of one pool spend seconds building those blocks on a loaded machine
     // (stop() then waits for workers that have not even reached their loop), so the usual "large" value is 64.
-    int large = (thorough && r.chance(1, 8)) ? 4096 : (r.chance(1, 8) ? 512 : 64);
+    int large = thorough ? int(r.pick<int>({64, 64, 64, 64, 512, 512, 4096})) : 64;
     c.lcap = int(r.pick<int>({0, 1, 4, large, large}));
     c.steal = r.chance(1, 2);
     c.balance = int(r.pick<int>({-1, -1, 0, 1000}));
@@ -639,7 +639,7 @@ int main(int argc, char** argv) {
     return o;
   };
   wd.start();
-  uint64_t n = vf::budget(260, 8000);
+  uint64_t n = vf::budget(150, 6000);
   for (uint64_t e = 0; e < n && !vf::failed(); ++e) {
     if (a.only_episode >= 0 && uint64_t(a.only_episode) != e) continue;
     run_episode(draw(a.seed, e));
